@@ -6,6 +6,8 @@ CONSTANTS
   ExtSets = {"default", "all"}
   IdKinds = {"fresh", "dup"}
   Peers = {}
+  Deferred = FALSE
+  MaxHosts = 2
   MaxHist = 3
 CONSTRAINT Bound
 ACTION_CONSTRAINT EmitBehaviour
